@@ -332,6 +332,10 @@ pub enum Tail {
     /// lower bidiagonal with the full diagonal but some sub-diagonal ones missing: invertible,
     /// *almost* the dual-diagonal staircase (seeded change C20-r7-2 takes it for one)
     GappedStaircase,
+    /// the staircase with one extra one somewhere in the tail (in the last column in half of the
+    /// draws): singular or not, decided by the caller's own rank computation (seeded change
+    /// C19-r10-2 takes "every parity column has weight <= 2" for the staircase test)
+    NearStaircase,
 }
 
 /// Random parity-check matrix [H0 | H1] with k information columns and r checks.
@@ -352,6 +356,17 @@ pub fn random_code(rng: &mut Stream, k: usize, r: usize, tail: Tail, min_row_wei
             }
             if gaps == 0 && r > 1 {
                 m.a[r - 1][r - 2] = 0;
+            }
+            m
+        }
+        Tail::NearStaircase => {
+            let mut m = staircase(r);
+            let zeros: Vec<(usize, usize)> = (0..r).flat_map(|i| (0..r).map(move |j| (i, j))).filter(|&(i, j)| m.a[i][j] == 0).collect();
+            let last: Vec<(usize, usize)> = zeros.iter().copied().filter(|&(_, j)| j == r - 1).collect();
+            let pool = if !last.is_empty() && rng.chance(1, 2) { &last } else { &zeros };
+            if !pool.is_empty() {
+                let (i, j) = pool[rng.below(pool.len() as u64) as usize];
+                m.a[i][j] = 1;
             }
             m
         }
